@@ -393,7 +393,39 @@ def run_ruleset(case, order, prng):
                               for rule in ruleset.rules]}
 
 
-RUNNERS = {"ruleset": run_ruleset, "refine": run_refine, "filter": run_filter, "hmmer": run_hmmer, "world": run_world, "layout": run_layout}
+def run_annotate(case, _order, _prng):
+    """ the real main.annotate_records: the results of the analysis modules are added to the record in the order the
+        modules ran (the order of the results dictionary), each marking the same stretch """
+    import antismash.main as main_module
+    from antismash.common import serialiser
+    from antismash.common.module_results import ModuleResults
+    from antismash.common.secmet.features import Feature
+    from antismash.common.secmet.locations import FeatureLocation
+    from antismash.common.secmet.test.helpers import DummyRecord
+
+    class Marking(ModuleResults):
+        def __init__(self, record_id, label):
+            super().__init__(record_id)
+            self.label = label
+
+        def to_json(self):
+            return {"record_id": self.record_id, "label": self.label}
+
+        def add_to_record(self, record):
+            feature = Feature(FeatureLocation(10, 40, 1), feature_type="misc_feature", created_by_antismash=True)
+            feature.notes.append(self.label)
+            record.add_feature(feature)
+
+    record = DummyRecord(seq="A" * 100, record_id="annotated")
+    record.record_index = 1
+    results = {name: Marking(record.id, name.rsplit(".", 1)[-1]) for name in case["modules"]}
+    main_module.annotate_records(serialiser.AntismashResults("in.gbk", [record], [results], "verif"))
+    return {"annotation_order": [feature.notes[0] for feature in record.get_generics()],
+            "genbank_order": [f.qualifiers.get("note", [""])[0] for f in record.to_biopython().features
+                              if f.type == "misc_feature"]}
+
+
+RUNNERS = {"annotate": run_annotate, "ruleset": run_ruleset, "refine": run_refine, "filter": run_filter, "hmmer": run_hmmer, "world": run_world, "layout": run_layout}
 
 
 def code_fingerprint() -> str:
